@@ -66,6 +66,9 @@ func (h *dbHarness) execRatchet(op *DBOp) {
 		return
 	}
 	target := cur + 1 + op.N%(fmvNewest-cur)
+	if target > h.fmvMax {
+		h.fmvMax = target
+	}
 	before := h.db.FormatMajorVersion()
 	err := h.db.RatchetFormatMajorVersion(pebble.FormatMajorVersion(target))
 	if err != nil {
@@ -77,8 +80,7 @@ func (h *dbHarness) execRatchet(op *DBOp) {
 		Violation("fmv", "RatchetFormatMajorVersion(%d) returned nil but the version is %d (was %d)", target, after, before)
 	}
 	h.cfg.FMV = int(after)
-	h.fmvFloor = int(after)
-	h.fmvFloorIdx = h.disk.LogLen()
+	h.fmvFloors = append(h.fmvFloors, fmvFloor{idx: h.disk.LogLen(), v: int(after)})
 	h.count("probe.ratchet", 1)
 	h.checkScan(h.model.Len())
 }
